@@ -220,11 +220,11 @@ PROPS["C12"] = dict(
 
 PROPS["C16"] = dict(
     level="proof",
-    verus=["c16_labels", "c16_resources", "c16_store"],
+    verus=["c16_labels", "c16_resources", "c16_store", "c16_engine"],
     labels=["C16.", "C18.resources."],
     kani=[],
     trusted=["memchr/memrchr (shims)", "seahash uninterpreted",
-             "the generichide lookup in engine.rs / blocker.rs and the parse of the location list (CosmeticFilter::parse) are NOT under contract; add_generic_filter is under contract in unit c17_generic (uninterpreted relation here)",
+             "the parse of the location list (CosmeticFilter::parse) is NOT under contract; add_generic_filter is under contract in unit c17_generic (uninterpreted relation here); the generichide lookup for the page (Engine::url_cosmetic_resources, Blocker::check_generic_hide) is under contract in unit c16_engine with Request::new, NetworkFilterList::check and hostname_cosmetic_resources entering by their contracts",
              "R7 lift in HostnameFilterBin::insert: `if let Some(b) = map.get_mut(k) { b.push(v) } else { map.insert(*k, vec![v]) }` = append under the key (HashMap::get_mut has no vstd specification)",
              "R5/R6 lifts in store_rule: Option<&str>::map(to_string), serde_json::to_string of the procedural filter (an uninterpreted function of operator list and action), iter::empty().chain(a).chain(b) = concatenation; derived Clone = structural copy",
              "a rule has at least one selector operator (precondition of plain_css_selector's assert!, established by CosmeticFilter::parse)",
@@ -239,7 +239,7 @@ PROPS["C16"] = dict(
                "procedural/action filters minus their exceptions, every unhidden selector as exceptions, and the scriptlet injections requested under some lookup hash minus identical exceptions (none under a blanket exception); "
                "that store_rule files a rule under every hostname and entity hash in the bin its kind names (the exception bin for `#@#` rules) and under every negated location in the opposite bin, and nothing else; "
                "that add_filter sends unscoped rules to the generic stores, scoped rules to the scoped database, and a rule with only negated locations to both (as its hidden generic rule)",
-    level_note="parsing of the location list and the generichide lookup are not under contract",
+    level_note="parsing of the location list and the registrable-domain lookup (url_parser / PSL) are not under contract",
     design_ref="DESIGN.md section 4, C16",
 )
 
